@@ -101,8 +101,12 @@ S10 = '''## 10. Changes to the machinery (log)
 * **C23** became a claimed check with *pinned* known findings instead of a second contract set inside the C22 unit.
 * **False alarms found and corrected in the machinery:** (1) the first precondition written for `translate_range`
   quantified over *all* documents and was nearly contradictory — replaced by a precondition on the document of that file
-  (the vacuity guard is on); (2) the committed evidence of C01 once came from a run on a deliberately reverted tree —
-  evidence is now regenerated by `tools/run_all.sh` on the clean tree before every commit; (3) vacuity-guard noise and
+  (the vacuity guard is on); (2) committed evidence twice came from a run on a deliberately broken tree (C01 on a reverted tree; C36 with
+  `discharged 56 != obligations 57`, left behind by `tools/seed.py detect C36_3` — the check itself was right both
+  times, the record was of another tree). Now structural: `tools/seed.py detect` runs the checks with
+  `VERIF_EVIDENCE_DIR=build/seeded_evidence` (honoured by `vc/evidence.py`), so `evidence/` is only ever written by runs
+  on the tree as it is, and `tools/run_all.sh` regenerates and validates every evidence file (schema, `obligations ==
+  discharged`, `violations == 0`) on the clean tree before a commit; (3) vacuity-guard noise and
   compile errors of an assembled unit are classified *undecided*, never as failed obligations.
 * **Kani for container code** stays dropped (compiler ICE on hashbrown/serde_json, §2.6). No bounded stand-in is
   counted as proved anywhere; the only bounded artefacts are the witness searches, labelled as such.
